@@ -18,6 +18,20 @@ def run(c):
         cc.certificates(c, model, sc)
         lines = cc.x1_lines(sc, rng, 25 if c.thorough else 6, big=c.thorough, mutants=4, valid=True)
         # pure random byte strings as well
+        # valid shapes whose strings are written in non-minimal length forms or with non-zero padding: must be rejected
+        g = cc.Gen1(sc, rng.fork(), big=True, noncanon=True)
+        must_reject = set()
+        for inst, it in sc.items:
+            if "prim" not in cc.reach_kinds(sc, inst["idx"]):
+                continue
+            for _ in range(12 if c.thorough else 4):
+                boxed = 1 if (inst["kind"] == "union" or rng.chance(1, 2)) else 0
+                g.bad = 0
+                b = g.value(inst["idx"], not boxed, [], 0)
+                ln = "codec.x1 %s %d %s %d %s" % (sc.sid, inst["idx"], inst["tlname"], boxed, hx(b))
+                lines.append(ln)
+                if g.bad:
+                    must_reject.add(ln)
         for inst, it in (sc.items if sc.sanity else []):   # without --checkLengthSanity a random count is a legitimate huge allocation
             for _ in range(6 if c.thorough else 2):
                 boxed = 1 if (inst["kind"] == "union" or rng.chance(1, 2)) else 0
@@ -27,6 +41,8 @@ def run(c):
         # oracle: accepted prefix must be reproduced by the writer (dict-containing types: re-reading the re-written bytes is a fixpoint)
         again = {}
         for l, a, _ in res:
+            if l in must_reject:
+                c.count("noncanonical-string:" + a.split(" ")[0])
             if not a.startswith("ok "):
                 continue
             f = l.split(" ")
